@@ -158,6 +158,11 @@ def numeral_python(n, base=10, size=0, digits=stddigits):
         if not n:
             return "0"
         return "-" + numeral(-n, base, size, digits)
+    # The size is only a hint. A number much longer than announced must
+    # still be split (str() refuses very long integers)
+    bc = bitcount(n)
+    if bc > 3000:
+        size = max(size, int(bc / math.log(base, 2)) + 1)
     # Fast enough to do directly
     if size < 250:
         return small_numeral(n, base, digits)
